@@ -219,8 +219,36 @@ func TestC01(t *testing.T) {
 			}
 		}
 	}
-	r.Rapid(t, "small-blocks", 5000, 120000, prop(64*1024, 512*1024))
+	r.Rapid(t, "small-blocks", 9000, 160000, prop(64*1024, 512*1024))
 	r.Rapid(t, "large-blocks", 160, 6000, prop(r.Pick(1<<20, 16<<20), r.Pick(3<<20, 40<<20)))
+	// fixed cases at the boundaries of the block-length field (1/2/3/4 bytes: 2^8, 2^16, 2^24) and of the
+	// small-block copy path (15/16 bytes): one block of exactly that many bytes, stored and entropy coded
+	idx0 := 0
+	for _, L := range []int{15, 16, 17, 255, 256, 257, 65535, 65536, 65537, 1<<24 - 1, 1 << 24, 1<<24 + 1} {
+		for _, pair := range [][2]string{{"NONE", "NONE"}, {"NONE", "HUFFMAN"}, {"LZ", "NONE"}} {
+			idx0++
+			if !r.Mine(idx0) {
+				continue
+			}
+			if L >= 1<<24 && pair[1] == "HUFFMAN" && !r.Thorough() {
+				continue
+			}
+			c := C01Case{Cfg: gen.Config{Transform: pair[0], Entropy: pair[1], BlockSize: uint(max(1024, (L+15)&^15)), Jobs: 1, Checksum: 32, HintClass: "absent"},
+				Data: gen.Recipe{Kind: gen.KRandom, Len: L, Seed: uint64(L)}, ReadJobs: 1}
+			if msg := runC01(r, c); msg != "" {
+				if slug := c01Known(r, c, msg); slug != "" {
+					r.Excluded(slug)
+					continue
+				}
+				if r.Survey() {
+					r.Violation(t, "roundtrip", c, "%s", msg)
+					continue
+				}
+				r.RecordFailure("roundtrip", c, "", msg)
+				t.Fatalf("length-field boundary: %s on %s", msg, jsonOf(c))
+			}
+		}
+	}
 	// exhaustive chains of length <= 2 on three fixed data kinds (thorough only)
 	if r.Thorough() {
 		idx := 0
@@ -260,5 +288,66 @@ func firstLine(s string) string {
 
 // c01Known matches a failing case against the signatures of open known findings.
 func c01Known(r *vrt.Run, c C01Case, msg string) string {
+	if r.KnownOpen("KF-14") && strings.HasPrefix(msg, "reading back failed") && kf14Signature(c) {
+		return "KF-14"
+	}
 	return ""
+}
+
+// kf14Signature evaluates the case predicate of known finding KF-14: some block
+// has an intermediate transform output (the output of the first k stages, k < n,
+// with a later stage applied) that is larger than the buffers the decoder uses
+// for inverse-stage outputs, max(B + max(512, B/16), compressed block size).
+// The intermediate lengths are measured with the library itself: the data is
+// compressed with each proper prefix of the chain and entropy NONE, and the
+// pre-entropy length of every block is read with the independent parser.
+func kf14Signature(c C01Case) bool {
+	names := chainNames(c.Cfg.Transform)
+	if len(names) < 2 {
+		return false
+	}
+	if len(names) > 8 {
+		names = names[:8]
+	}
+	data := c.Data.Expand()
+	full, err := Compress(data, c.Cfg, c.WriteSizes)
+	if err != nil {
+		return false
+	}
+	stFull, err := parseStream(full, c.Cfg)
+	if err != nil {
+		return false
+	}
+	B := int(c.Cfg.BlockSize)
+	for k := 1; k < len(names); k++ {
+		pc := c.Cfg
+		pc.Transform = strings.Join(names[:k], "+")
+		pc.Entropy = "NONE"
+		pc.Headerless = false
+		ps, err := Compress(data, pc, nil)
+		if err != nil {
+			continue
+		}
+		st, err := kfmt.Parse(ps)
+		if err != nil || len(st.Blocks) != len(stFull.Blocks) {
+			continue
+		}
+		for b, blk := range st.Blocks {
+			fb := stFull.Blocks[b]
+			if fb.Copy {
+				continue
+			}
+			laterApplied := false
+			for j := k; j < len(names); j++ {
+				if fb.SkipFlags&(0x80>>uint(j)) == 0 {
+					laterApplied = true
+				}
+			}
+			decBuf := max(B+max(512, B>>4), (fb.End-fb.LenPrefixEnd+7)/8)
+			if laterApplied && int(blk.PreLen) > decBuf {
+				return true
+			}
+		}
+	}
+	return false
 }
